@@ -2,7 +2,8 @@
    Pinned statements only; proofs are in Proofs/CacheFacts.v and Proofs/CacheSys.v. *)
 From Coq Require Import List NArith.
 From RaftLog Require Import Base.Bytes Model.Types Model.Cache Model.Core Model.Recover Model.Run.
-From RaftLog Require Import Proofs.CacheFacts Proofs.CacheSys.
+From RaftLog Require Import Proofs.CacheFacts Proofs.CacheSys Proofs.JournalFacts.
+From RaftLog Require Proofs.CacheRestart.
 Import ListNotations.
 
 (* In every state reachable from an empty directory by any operations with any
@@ -44,12 +45,32 @@ Theorem C15_drain : forall cfg ops res y y' r,
   forall id p, In (id, p) (ch_entries c') -> opair_leb (Some id) (ch_evictable c') = false.
 Proof. exact CacheSys.C15_drain. Qed.
 
-(* replaying a journal keeps the accounting exact as long as every State record in it
-   carries a last log id not below the resident keys (restart case, partial: the
-   premise heads_ok is discharged by the journal invariant, not yet proved here) *)
-Theorem C15_replay_partial : forall s id start recs ends s1,
-  cinv s -> heads_ok (m_rs s) recs -> replay s id start recs ends = (s1, None) -> cinv s1.
-Proof. intros s id start recs ends s1. exact (CacheSys.replay_cinv recs ends s id start s1). Qed.
+(* the same with restarts anywhere in the history: any configuration and any cache limits
+   (0/0 included) at every restart, unflushed bytes lost at a restart, refused writes and
+   Raft-illegal purges included; only update_state (which installs an arbitrary state) is
+   excluded. Arguments are well-formed (u64 / u32 ranges) so that recovery decodes what was
+   written. *)
+Theorem C15_counts_exact_restarts : forall cfg ops res y,
+  forallb CacheRestart.op_c15 ops = true -> Forall op_wf ops ->
+  run_case cfg ops = (res, Some y) ->
+  cache_ok (m_cache (k_sm (y_core y))).
+Proof. exact CacheRestart.C15_counts_exact_restarts. Qed.
+
+Theorem C15_stat_exact_restarts : forall cfg ops res y,
+  forallb CacheRestart.op_c15 ops = true -> Forall op_wf ops ->
+  run_case cfg ops = (res, Some y) ->
+  let es := ch_entries (m_cache (k_sm (y_core y))) in
+  st_items (do_stat (y_core y)) = N.of_nat (length es) /\
+  st_size (do_stat (y_core y)) = total es /\ NoDup (map fst es).
+Proof. exact CacheRestart.C15_stat_exact_restarts. Qed.
+
+(* on these histories a restart never fails: recovery replays exactly the records that
+   were validated when they were written *)
+Theorem C15_restart_always_opens : forall cfg ops res y,
+  forallb CacheRestart.op_c15 ops = true -> Forall op_wf ops ->
+  run_case cfg ops = (res, Some y) ->
+  forall cfg', exists y', run_op y (ORestart cfg') = (Some y', ResOpened).
+Proof. intros cfg ops res y H1 H2 H3 cfg'. exact (CacheRestart.C15_restart_always_opens cfg ops res y cfg' H1 H2 H3). Qed.
 
 (* non-vacuity: a reachable state with a rotation, a truncation and a refused write *)
 Example C15_reachable_example :
@@ -59,6 +80,7 @@ Example C15_reachable_example :
     = (res, Some y) /\ ch_size (m_cache (k_sm (y_core y))) = total (ch_entries (m_cache (k_sm (y_core y)))).
 Proof. eexists; eexists; split; [vm_compute; reflexivity | vm_compute; reflexivity]. Qed.
 
+Print Assumptions C15_counts_exact_restarts.
 Print Assumptions C15_counts_exact.
 Print Assumptions C15_over_limit_pinned.
 Print Assumptions C15_drain.
